@@ -613,6 +613,16 @@ for cell in cells:
                 K2().m(); outcome = "ret"
             except icontract.ViolationError:
                 outcome = "violation"
+            # the same call with the instance passed by keyword must be judged alike (in every interpreter mode)
+            inst = object.__new__(K2)
+            ncond = calls.count("cond")
+            try:
+                K2.m(self=inst); outcome_kw = "ret"
+            except icontract.ViolationError:
+                outcome_kw = "violation"
+            del calls[ncond:]
+            if outcome_kw != outcome:
+                raise RuntimeError("m() gives {} but m(self=instance) gives {}".format(outcome, outcome_kw))
         else:
             if c == "function":
                 def t(x=1): return 1
